@@ -154,3 +154,18 @@ H("C03", "html/tree", "VxH_C03_cascade", reach=["computed", "style-attribute"], 
 H("C03", "css/validation", "VxH_C03_nesting", reach=["flattened"], bounds="style rule with 1..3 items, each an own declaration, a nested '&{...}' rule or an unrelated nested rule")
 H("C03", "html/tree", "VxH_C03_page", reach=["nth-match", "nth-no-match"], bounds="@page selector with side/name/blank/first symbolic, :nth step A enumerated in [-6,6], offset |B| <= 2^10 (thorough 2^20), page index in [0, 2^10] (thorough 2^20), witness n arbitrary")
 H("C03", "html/tree", "VxH_C03_sheets", reach=["computed"], bounds="GetAllComputedStyles with UA / presentational-hint / optional user sheets holding one rule of symbolic specificity in [0,3]^3 each, against an author <style> rule p{...}")
+
+# ---- C08 declarations ----
+ASSUMPTIONS["C08"] = [
+    "declarations are drawn from a pool of ~110 representative property/value spellings covering lengths in every unit family, angles, resolutions, keywords, functions and shorthands; other properties are outside the claim",
+    "var() substitution and cyclic references are covered by the C01/C08 var harnesses only for token lists of bounded size",
+]
+CLAIMS["C08"] = {
+    "text": "Relational (2-safety) checks on the real validators and expanders: for each of ~110 pooled declarations the letter case of every identifier, unit, function and property-name letter is symbolic and the solver shows the validated output equals that of the lower-case spelling; white space / comment insertion and declaration isolation are shown the same way.",
+    "design_ref": "DESIGN.md section 4 C08",
+    "note": "Trusted: symgo, z3, DeepEqual on interpreter values. Pool-bounded.",
+}
+H("C08", "css/validation", "VxH_C08_case", reach=["validated"], bounds="110 pooled declarations; every ASCII letter of names, keywords, units and function names has symbolic case")
+H("C08", "css/validation", "VxH_C08_whitespace", reach=["validated"], bounds="pooled declarations with a comment or extra white space inserted at one symbolic gap (between value tokens or inside function arguments) or at every gap")
+H("C08", "css/validation", "VxH_C08_isolation", reach=["validated"], bounds="[orphans:3, X, widows:4] where X is a pooled declaration damaged in one of 4 ways (unknown name, one token replaced by one of 7 junk tokens, junk appended, empty value)")
+H("C08", "css/validation", "VxH_C08_sides", mode="real", reach=["expanded"], bounds="margin / padding / border-width with 1..4 symbolic px lengths")
